@@ -22,7 +22,7 @@ def run(tier, seed):
             rep["pseed"] = cases[i]["pseed"] + 999
             cases[i + per - 1] = rep
         for c in cases:
-            c["env"] = {"VM_FORCE_DEST": "2"}   # same destination law as the multi-rank runs of the same models below
+            c["env"] = {"VM_FORCE_DEST": "2", "VERIF_CORE_BINDING": "1"}   # same destination law as the multi-rank runs of the same models below
         recs = sim_common.run_sim_cases(chk, cases, timeout=300)
     finally:
         del os.environ["VM_FORCE_RNG"]
@@ -71,5 +71,5 @@ def run(tier, seed):
     chk.rule = ("one class = one generated model whose every decision comes from the library generator, run under %d configurations (threads 1..16, "
                 "checkpoint interval auto/1..64, GVT period 0..100 ms, one exact repetition); non-trivial run = rollbacks with coasting forward happened "
                 "(the stream had to be replayed); distinct = schedule signature" % per)
-    chk.assumptions = ["core binding is not varied (it does not reach any code beyond thread affinity)", "multi-rank runs share the host (one machine)"]
-    return chk.finish(min_evals=20, require={"equivalence_classes": 5, "multi_rank_runs_in_classes": 2, "rollbacks": 100, "silent_executions": 1000, "c01_lps_compared": 100})
+    chk.assumptions = ["core binding is switched on in half of the serialized (baton) runs only", "multi-rank runs share the host (one machine)"]
+    return chk.finish(min_evals=20, require={"equivalence_classes": 5, "runs_with_core_binding": 2, "multi_rank_runs_in_classes": 2, "rollbacks": 100, "silent_executions": 1000, "c01_lps_compared": 100})
